@@ -25,6 +25,8 @@ def run(ctx):
     ctx.rule("R10.b", "every .cancel() on an async_refs entry deregisters it (async_refs.pop(k).cancel()) or is followed, before the next suspension point, by async_refs[k] = <current task>", floor=2)
     ctx.rule("R10.d", "in _async_ref, on every path from the entry to a suspension point the entry async_refs[pname] is the current task "
                       "(assigned on that path, or the path condition says running_task is current_task)", floor=1)
+    ctx.rule("R10.e", "supersession cancels: in _async_ref the registration of the current task on the path where another task owns the entry is dominated "
+                      "by a cancel of that task which is not subject to any further condition", floor=1)
     ctx.rule("R10.c", "in reactive.py every write of self._current_ after a suspension point is guarded by `self._current_task is task`, and the task is registered before the first suspension", floor=2)
     ctx.not_decided += ["the asyncio scheduler's cancellation semantics (trusted: Task.cancel() raises at the await, so no later write happens)",
                         "the final value under every schedule (follows from R10.a-d; each violated obligation yields a concrete bad schedule)"]
@@ -112,13 +114,33 @@ def run(ctx):
                  "a path reaches the suspension point `%s` without async_refs[pname] being the current task" % bad[0].text()[:70],
                  witness=cfg.witness(p), key="%s::unowned-suspension" % f.qualname)
 
+    # ------------------------------------------------------------- R10.e
+    regs = [n for n in cfg.live_nodes() if establishes(n) and n.kind == "stmt"]
+    sup_regs = [n for n in regs if any(tr is False and isinstance(e, ast.Compare) and isinstance(e.ops[0], ast.Is) and norm(e.comparators[0]) == "None"
+                                       and norm(e.left) in run_names for e, tr in cfg.conditions(n))]
+    if not sup_regs:
+        ctx.fail("R10.e", f, f.node, "_async_ref has no path that takes over the entry from a task that is still registered", key=f.qualname + "::no-takeover")
+    for rg in sup_regs:
+        rc_ = {(norm(e), t) for e, t in cfg.conditions(rg)}
+        cancels = [n for n in cfg.live_nodes() if cfg.dominates(n, rg) and any(isinstance(c.func, ast.Attribute) and c.func.attr == "cancel" for c in calls_in(n))]
+        uncond = [c for c in cancels if {(norm(e), t) for e, t in cfg.conditions(c)} <= rc_]
+        if uncond:
+            ctx.ok("R10.e", f, rg, "taking over the entry is preceded by an unconditional cancel of the previous owner")
+        elif cancels:
+            extra = {(norm(e), t) for e, t in cfg.conditions(cancels[0])} - rc_
+            ctx.fail("R10.e", f, cancels[0], "the previous owner is cancelled only when %s: a superseded task that is still pending keeps running and applies its stale result later" % (
+                " and ".join("%s is %s" % x for x in sorted(extra))), key=f.qualname + "::conditional-cancel",
+                input="two async assignments in one loop tick; the older awaitable completes last -> the parameter ends with the older result")
+        else:
+            ctx.fail("R10.e", f, rg, "the current task registers itself over a still-registered task without cancelling it", key=f.qualname + "::takeover-without-cancel")
+
     # ------------------------------------------------------------- R10.c
     for g in ctx.repo.all_funcs("param.reactive"):
         if not g.is_async:
             continue
         gc = ctx.facts.cfg(g)
-        writes = [n for n in gc.live_nodes() for t in stores_in(n) if isinstance(t, ast.Attribute) and t.attr == "_current_" and norm(t.value) == "self"]
-        if not writes:
+        writes = [n for n in gc.live_nodes() for t in stores_in(n) if isinstance(t, ast.Attribute) and t.attr in ("_current_", "_current_task") and norm(t.value) == "self"]
+        if not any(isinstance(t, ast.Attribute) and t.attr == "_current_" for n in writes for t in stores_in(n)):
             continue
         regs = [n for n in gc.live_nodes() if n.kind == "stmt" and isinstance(n.ast, ast.Assign)
                 and any(isinstance(t, ast.Attribute) and t.attr == "_current_task" for t in n.ast.targets)
@@ -141,4 +163,4 @@ def run(ctx):
                 ctx.ok("R10.c", g, w, "write after a suspension is guarded by `self._current_task is task`")
             else:
                 ctx.fail("R10.c", g, w, "`%s` happens after a suspension point without the latest-wins guard `self._current_task is task`: "
-                                        "a superseded evaluation overwrites the newer result" % w.text())
+                                        "a superseded evaluation overwrites the newer result (or wipes the newer evaluation's ownership token)" % w.text())
